@@ -313,7 +313,7 @@ def main(tier):
                              de.distance_point_to_segment, de.distance_segment_to_segment, mb.BaseMatcher._match_states)
     budget = 60 if tier == 'quick' else 600
     kres = run_instances(run_instance, [i + (budget,) for i in k_instances(tier)])
-    res = gabs.run_all(rep, run_instance, r_instances(tier), budget, 16 * (80 if tier == 'quick' else 1200))
+    res = gabs.run_all(rep, run_instance, r_instances(tier), budget, 16 * (80 if tier == 'quick' else 900))
     ch = run_crosshair(tier)
     rep.extra['crosshair_labels'] = ch
     findings = load_findings(PID)
